@@ -130,6 +130,27 @@ def run(ck):
                              f'fresh T={fresh.split_temperature}, refit T={used.split_temperature} on {desc}',
                              dict(desc, history=[h[0] for h in hist], maxdiff=dmax, fresh_T=fresh.split_temperature, refit_T=used.split_temperature),
                              key=json.dumps(dict(site='refit', same_T=(fresh.split_temperature == used.split_temperature))))
+    # (2b) a leaf with more than 5000 training rows and adaptive bandwidth: the median is estimated on a random subsample of the
+    #      pairwise distances, drawn from the seeded global generator
+    for kern_big in (['l2_high_dim'] if ck.tier == 'quick' else ['l2_high_dim', 'l2', 'l1']):
+        nb = 5300
+        Xb = xr.make_X('random', nb, 3, rng); yb = xr.make_y('reg', Xb, rng); Xvb = xr.make_X('random', 60, 3, rng); yvb = xr.make_y('reg', Xvb, rng)
+        Db = [torch.tensor(a) for a in (Xb, yb, Xvb, yvb)]; Qb = torch.tensor(xr.make_X('random', 20, 3, rng))
+        ctorb = dict(rfm_params=xr.default_rfm_params(kernel=kern_big, iters=0, reg=1e-2, bandwidth=3.0, bandwidth_mode='adaptive'), max_leaf_size=20_000,
+                     verbose=False, use_temperature_tuning=False, random_state=4242)
+        outsb = []
+        for burn in (0, 23, 5_000):
+            random.seed(burn); np.random.seed(burn); torch.manual_seed(burn)
+            if burn:
+                torch.randn(burn); np.random.rand(burn)
+            mb = xr.xRFM(**copy.deepcopy(ctorb))
+            with xr.quiet():
+                mb.fit(*Db)
+                outsb.append((np.asarray(mb.predict(Qb)), float(mb.trees[0]['model'].kernel_obj.bandwidth)))
+        ck.case(dict(kind='seed-after-burn-large-adaptive-leaf', kernel=kern_big, n=nb), nontrivial=True); ck.count('large adaptive leaf (bandwidth subsample)')
+        if any(not np.array_equal(outsb[0][0], o[0]) or outsb[0][1] != o[1] for o in outsb[1:]):
+            ck.violation(f'same seed/data/config gives different predictions / bandwidths {[o[1] for o in outsb]} after prior random draws on a {nb}-row adaptive leaf ({kern_big})',
+                         dict(kernel=kern_big, n=nb, bandwidths=[o[1] for o in outsb]), key=json.dumps(dict(site='seed-reproducibility', method='large-adaptive-leaf')))
     # (3) tie-forcing scenario from C10's tie theorem: accuracy on a tiny validation set, candidates tie
     for i in range(ck.n(6, 30)):
         D1 = data('class', 160, 3, K=2)
